@@ -135,11 +135,11 @@ def l_r2_escaping(p: Project, rep: Report, rule="L-R2", reader_decodable=False):
             rep.check(rule, f"tostring_unclosed_elements:text-read#{i}:reader-decodes", not bad, f"{info[0]} can emit {bad}, which String._convert_str does not decode" if bad else "", uloc(p, r))
     if rule == "L-R2":
         # producers used by serialize
+        from .rules_request import serialize_returns
+
         ser = p.get_function("ofxtools.Client", "OFXClient.serialize").node
-        producers = set()
-        for st in own_statements(ser):
-            if isinstance(st, ast.Assign) and any(isinstance(t, ast.Name) and t.id == "body" for t in st.targets):
-                producers.add(text(st.value.func) if isinstance(st.value, ast.Call) else text(st.value))
+        rets, _pl, _f = serialize_returns(p)
+        producers = {text(b.func) if isinstance(b, ast.Call) else text(b) for _q, _h, b in rets}
         ok = producers <= {"ET.tostring", "utils.tostring_unclosed_elements", "tostring_unclosed_elements"} and bool(producers)
         rep.check(rule, "serialize:body-producers", ok, f"serialize() builds the body with {sorted(producers)}; only ET.tostring (escapes) and tostring_unclosed_elements (checked above) are known to escape" if not ok else "", f"{p.module('ofxtools.Client').relpath}:{ser.lineno}")
         # tag names come from the element, text never used as a tag
